@@ -152,6 +152,10 @@ type Obs struct {
 	// their own entry and nobody else's
 	CapsConcSame bool   `json:"capsConcSame"`
 	CapsConcDiff string `json:"capsConcDiff"`
+	// the command-line routes (helm template / install / upgrade / upgrade --install through pkg/cmd, unrelated flags set)
+	// record the documents of the SDK render
+	CLISame bool   `json:"cliSame"`
+	CLIDiff string `json:"cliDiff"`
 	// a dry run with DisableHooks (--no-hooks), client-only and through a cluster connection, equals the plain one:
 	// Release.Hooks still lists every hook document
 	NoHooksSame bool   `json:"noHooksSame"`
